@@ -20,4 +20,21 @@ PROPS = {
         "assumptions": ["instants within years 1..9999 (Go time arithmetic exact)",
                         "a call is compared only through its [t0,t1] clock bracket; every time guard is monotone in now"],
     },
+    "C02": {
+        "proof_module": "OidcModel.Proofs.C02",
+        "theorems": ["C02.c02_rp", "C02.c02_accessToken", "C02.c02_idTokenHint", "C02.c02_assertion",
+                     "C02.parse_and_signature_sound", "C02.verifySignature_sound", "C02.findMatchingKey_eq_spec",
+                     "C02.findMatchingKey_ok", "C02.findMatchingKey_ambiguous"],
+        "cases": {"quick": 4000, "thorough": 40000},
+        "rule": "part 1: oidc.FindMatchingKey on key sets of 1-4 keys over (kid in {'',a,b}) x (use in {'',sig,enc}) x (RSA,EC,OKP) x header kid x 6 algs "
+                "(thorough: exhaustive for sets of <=2 keys) compared with the statement's selection rule; part 2: genuinely signed tokens with one of 10 "
+                "serialisation manipulations (alg swap, HMAC-with-public-key, foreign key, truncated signature, replaced payload, extra segments, flattened / "
+                "general JSON JWS, JSON smuggling, re-encoding) through rp.VerifyIDToken (remote JWKS), op.VerifyAccessToken, op.VerifyIDTokenHint (OpenIDKeySet), "
+                "op.VerifyJWTAssertion (per-client key registry); non-trivial = outcome class other than the modal one",
+        "trivial_class": r"err:ErrKeyNone\|err:ErrKeyNone\|ok",
+        "exhaustive": {"thorough": True},
+        "trusted_base": COMMON_TB + ["go-jose parsing (which signatures/headers/payload a string contains) is taken from the real library as oracle",
+                                     "FindMatchingKey and the three KeySet implementations are hand-modelled; tied by this correspondence stream"],
+        "assumptions": ["signature terms are symbolic: forging a signature without the key is impossible by definition of the term algebra"],
+    },
 }
